@@ -137,7 +137,7 @@ def make_op(rng, tasks, wbss, facades, mode='mixed', former=None):
     L = rng.choice([some, dup, some])()
     one_or_list = rng.choice([u, L])
     i = rng.randint(0, 3)
-    mv = rng.choice([u, [u, v]]); anchor = rng.choice([{'before': v}, {'after': v}, {}, {'before': v, 'after': u}])
+    mv = rng.choice([u, [u, v], [u, v], [u, u]]); anchor = rng.choice([{'before': v}, {'after': v}, {}, {'before': v, 'after': u}])
     rev = rng.random() < .5
     ids = [x.id for x in some()]
     owner_name = lambda o: ('w%d' % wbss.index(o)) if isinstance(o, WBS) else 't%d' % tasks.index(o)
@@ -382,7 +382,8 @@ def walk(seed, index, props, steps=12, n=None, verbose=False):
     n = n or rng.choice([3, 4, 4, 5])
     mode = rng.choice(['mixed', 'mixed', 'links', 'hierarchy'])
     if mode == 'links':
-        steps = 16; tasks = [Task(i + 1, f't{i}') for i in range(n)]          # distinct ids, dependency edits only (incl. reading the closures)
+        steps = 16          # dependency edits only (incl. reading the closures); ids distinct, or shared between tasks (identity, not id, must drive the closures)
+        tasks = [Task(i + 1, f't{i}') for i in range(n)] if rng.random() < .5 else [Task(rng.randint(1, 2), f't{i}') for i in range(n)]
     elif mode == 'hierarchy' and rng.random() < .5:
         steps = 14; tasks = [Task(i + 1, f't{i}') for i in range(n)]
     else:
